@@ -17,7 +17,7 @@ RULE = ('messages built through the public constructors: requests (methods x par
         'errors (base class and the six typed classes x explicit/default code and message incl. 0 and "" x data absent/null/values), '
         'responses (ids x results/errors), request batches of length 0..5 with distinct ids, response batches of length 0..5, '
         'batch-level errors; every message is pushed through json.dumps (both to_json() and the library encoder on the object) '
-        'and json.loads, deserialised, serialised again; before each observed round trip the same round trip is done once and every object and container it produced is modified in place. distinct = distinct constructor arguments; non-trivial = not a bare '
+        'and json.loads, deserialised, serialised again; before each observed round trip the same round trip is done once and every object and container it produced is modified in place; before each serialisation the message is compared with an equal one, printed, measured and iterated. distinct = distinct constructor arguments; non-trivial = not a bare '
         'parameterless notification / empty batch')
 EXHAUSTIVE = {'quick': False, 'thorough': False}
 TRUSTED_BASE = ['json.dumps/json.loads (stdlib codec, exercised on every case; loads(dumps v) = v assumed for values within the int digit limit)']
@@ -201,6 +201,22 @@ def warm_up(case, base):
         pass
 
 
+def observers(obj, case, other=None):
+    """Read-only operations on a message - comparison with an equal message, repr, length, iteration - before it is serialised:
+    none of them may change what it serialises to."""
+    import copy
+    try:
+        twin = other if other is not None else build(copy.deepcopy(case))
+    except Exception:
+        return
+    for op in (lambda: obj == twin, lambda: obj != twin, lambda: twin == obj, lambda: repr(obj), lambda: len(obj), lambda: list(obj),
+               lambda: bool(obj)):
+        try:
+            op()
+        except Exception:
+            pass
+
+
 def observe(case):
     k = case['kind']
     base = getattr(pjrpc.exceptions, case['base'])
@@ -221,6 +237,7 @@ def observe(case):
             obj = BatchResponse(error=mk_err(case['err']))
     except Exception as e:
         return ('construct_fail', e)
+    observers(obj, case)
     wire, same = through_text(obj)
     try:
         if k == 'req':
@@ -240,6 +257,7 @@ def observe(case):
             fields = {'error': show_error(o2.error)} if o2.is_error else [show_response(r) for r in o2]
     except Exception as e:
         return ('decode_fail', wire, same, e)
+    observers(o2, case, obj)
     wire2, _ = through_text(o2)
     return ('full', wire, same, fields, wire2)
 
